@@ -162,7 +162,7 @@ type c16Scn struct {
 	steps    []c16Step
 	binds    []int
 	known    []bool // chals[i] filled in
-	storeFail string
+	emitMid  bool
 	failed   string // scenario could not be driven to its end (reported as an observation that satisfies nothing)
 }
 
@@ -214,6 +214,9 @@ func (s *c16Scn) setup(callGroups [][]int) error {
 	}
 	h.ik = c15IssuerKeyOf(s.x.ca.URL)
 	h.dnsSolv = &certmagic.DNS01Solver{DNSManager: certmagic.DNSManager{DNSProvider: h.provider, PropagationTimeout: -1, Resolvers: []string{"127.0.0.1:1"}}}
+	if in.E2E.Variant == "cancel-in-wait" {
+		h.dnsSolv.PropagationDelay = 20 * time.Second // acmez's Wait blocks here until the context is cancelled
+	}
 	s.rec = &c16RecSolver{inner: h.dnsSolv}
 	h.chals = make([]acme.Challenge, len(in.Orders))
 	s.known = make([]bool, len(in.Orders))
@@ -325,6 +328,14 @@ func (s *c16Scn) learnFromCA() {
 // await waits for n validations to arrive; fewer if every call has returned meanwhile.
 func (s *c16Scn) await(n int) []c16Arrival {
 	var out []c16Arrival
+	if s.emitMid {
+		// (cancel-in-wait) the challenge is presented and acmez is inside Wait: observe, then cancel
+		s.emitMid = false
+		s.step(c16Step{Order: 0})
+		s.emit(nil, "waiting")
+		s.steps, s.binds = nil, nil
+		s.calls[0].cancel()
+	}
 	allDone := make(chan struct{})
 	go func() {
 		for _, c := range s.calls {
@@ -682,6 +693,13 @@ func (e *c16Env) runE2E(w *emit.Writer, in c16In, desc map[string]any, r *rand.R
 			s.h.provider.FailAppend = 1
 		}
 		s.start(0)
+		if sc.Variant == "cancel-in-wait" {
+			// the record is there, acmez waits for the solver (propagation delay): cancel now
+			for i := 0; i < 2000 && len(s.h.provider.Snapshot()) == 0; i++ {
+				time.Sleep(5 * time.Millisecond)
+			}
+			s.emitMid = true
+		}
 		arr := s.await(1)
 		pst := c16Step{Order: 0, Storage: sc.Variant == "store-fails", Provider: sc.Variant == "append-fails"}
 		s.step(pst)
@@ -718,7 +736,8 @@ func (e *c16Env) runE2E(w *emit.Writer, in c16In, desc map[string]any, r *rand.R
 		} else {
 			// Present failed (or the order never got there): acmez cleans up all the same
 			s.waitCall(0)
-			s.step(c16Step{Clean: true, Order: 0})
+			s.step(c16Step{Clean: true, Order: 0, Cancel: sc.Variant == "cancel-in-wait"})
+			cancelled = sc.Variant == "cancel-in-wait"
 		}
 		e.failOp = ""
 		items := outcome(0, validated, rejects, cancelled)
